@@ -78,6 +78,8 @@ def doc_hole(x):
         return doc_of(x)
     if x[0] == 'call' and x[1] == S('str') and len(x[2]) == 1:
         return doc_hole(x[2][0])
+    if x[0] == 'ite' and any(stringy(y) or (y[0] == 'const' and isinstance(y[1], str)) for y in (x[2], x[3])):
+        return [Alt(x[1], doc_hole(x[2]), doc_hole(x[3]))]
     return [Hole(x)]
 
 
@@ -105,6 +107,11 @@ def join_doc(sep, lst):
         return merge(out)
     if lst[0] == 'ite':
         return [Alt(lst[1], join_doc(sep, lst[2]), join_doc(sep, lst[3]))]
+    if lst[0] == 'bin' and lst[1] == 'Add':
+        # list + list
+        return join_doc(sep, ('cat', (lst[2], lst[3])))
+    if lst[0] == 'call' and lst[1] in (S('list'), S('tuple')) and len(lst[2]) == 1 and not lst[3]:
+        return join_doc(sep, lst[2][0])
     return [Hole(lst, sep)]
 
 
